@@ -10,7 +10,7 @@ using namespace vf;
 
 // ---- extract / save -----------------------------------------------------------------------------
 static void part_blocks(Ctx& ctx, uint64_t m, uint64_t b0, uint64_t b1) {
-  const uint64_t maxrows = 4;
+  const uint64_t maxrows = 17;
   std::vector<uint64_t> sls = {2 * m, 2 * m + 4, 3 * m};
   GBuf src(((maxrows - 1) * 3 * m + 2 * m) * 8, 8), dst(64 * maxrows, 16), vec(2 * m * 8, 24);
   // index-encoding doubles: value = position + 1
@@ -43,7 +43,7 @@ static void part_blocks(Ctx& ctx, uint64_t m, uint64_t b0, uint64_t b1) {
         if (memcmp(d2.p, dst.p, 64)) err = "extract o save is not the identity";
       }
       // contiguous and strided, nrows 0..4
-      for (uint64_t nrows = 0; nrows <= maxrows && err.empty(); ++nrows)
+      for (uint64_t nrows : std::vector<uint64_t>{0, 1, 2, 3, 4, 7, 8, 17}) { if (!err.empty()) break;
         for (uint64_t sl : {(uint64_t)0, sls[0], sls[1], sls[2]}) {
           uint64_t esl = sl ? sl : 2 * m;
           prefill(dst.p, dst.bytes, 2);
@@ -55,6 +55,7 @@ static void part_blocks(Ctx& ctx, uint64_t m, uint64_t b0, uint64_t b1) {
           GBuf ref(64 * maxrows, 16); prefill(ref.p, ref.bytes, 2);
           if (nrows < maxrows && memcmp(dst.p + 64 * nrows, ref.p + 64 * nrows, 64 * (maxrows - nrows))) err = sfmt("extract_1blk_from_contiguous_reim%s wrote beyond nrows blocks", sl ? "_sl" : "");
         }
+      }
     }
     if (err.empty() && memcmp(src.p, ssnap.data(), src.bytes)) err = "source vector modified";
     if (err.empty() && (!src.guards_ok() || !dst.guards_ok() || !vec.guards_ok())) err = "write outside a declared extent";
@@ -206,7 +207,7 @@ int main(int argc, char** argv) {
                      "floating-point kernels are judged against the exact binary128 result with the bound gamma_k*sum|terms| (k = number of rounded operations + 2), valid for any summation order with or without FMA",
                      "each kernel is called from its minimum size (unroll width) upwards"};
   return ctx.finish("exploration",
-                    "every m = 4..mmax x every block index x {single, contiguous nrows 0..4, strided x 3 strides} x ref/avx; cplx<->reim4 for every m = 4..65536 x 4 ways x cfg; dot products nrows 0..16 (64 thorough) x 2 value sets x ref/avx2; "
+                    "every m = 4..mmax x every block index x {single, contiguous nrows in {0..4,7,8,17}, strided x 3 strides} x ref/avx; cplx<->reim4 for every m = 4..65536 x 4 ways x cfg; dot products nrows 0..16 (64 thorough) x 2 value sets x ref/avx2; "
                     "convolutions (sizea,sizeb) in {0..4}^2 x k 0..9 x (offset,size) in {0..4}^2; 14 pointwise kernels x every m up to 4096 x 2 value sets (incl. signed zeros, 2^+-300); distinct = distinct case ids",
                     true);
 }
